@@ -135,7 +135,31 @@ Apply(g, e) ==
                Touch([it EXCEPT !.results = <<[summary |-> e.summary, path |-> e.path, ts |-> e.ts]>> \o @],
                      e.ts)]
 
-Replay(log) == FoldLeft(Apply, EmptyGraph, log)
+(***************************************************************************)
+(* Legacy items (graph.go:300-342): an item whose title is blank gets a    *)
+(* title derived from its body at the end of every replay: the first line  *)
+(* that is neither blank nor a markdown heading becomes the title, the     *)
+(* lines after it the body.  A finite table of bodies, shared with the     *)
+(* crafted-log driver, stands for the string function.                     *)
+(***************************************************************************)
+LegacyTable ==
+  [ b \in {"Fix bug\nmore detail", "# Heading\nReal title\nrest of it", "only a title", "# H", "\n\nLate title\n\ntail"} |->
+      CASE b = "Fix bug\nmore detail"                -> <<"Fix bug", "more detail">>
+        [] b = "# Heading\nReal title\nrest of it"   -> <<"Real title", "rest of it">>
+        [] b = "only a title"                         -> <<"only a title", "">>
+        [] b = "# H"                                  -> <<"(untitled)", "# H">>
+        [] OTHER                                      -> <<"Late title", "\ntail">> ]
+LegacyOf(b) == IF b \in DOMAIN LegacyTable THEN LegacyTable[b]
+               ELSE IF Blank(b) THEN <<"(untitled)", "">> ELSE <<b, "">>
+Migrate(g) ==
+  IF g.err # "" THEN g
+  ELSE [g EXCEPT !.items = [i \in DOMAIN g.items |->
+          IF Trim(g.items[i].title) = ""
+            THEN [g.items[i] EXCEPT !.title = LegacyOf(g.items[i].body)[1],
+                                    !.body  = LegacyOf(g.items[i].body)[2]]
+            ELSE g.items[i]]]
+
+Replay(log) == Migrate(FoldLeft(Apply, EmptyGraph, log))
 
 (***************************************************************************)
 (* Readiness (graph.go:568-652).                                           *)
